@@ -31,9 +31,9 @@ func FieldKey(v ssa.Value) string {
 			v = x.X
 			continue
 		case *ssa.FieldAddr:
-			return typeName(x.X.Type()) + "." + FieldName(x.X.Type(), x.Field)
+			return ownerTypeName(x, x.X) + "." + FieldName(x.X.Type(), x.Field)
 		case *ssa.Field:
-			return typeName(x.X.Type()) + "." + FieldName(x.X.Type(), x.Field)
+			return ownerTypeName(x, x.X) + "." + FieldName(x.X.Type(), x.Field)
 		case *ssa.Call:
 			// an accessor that only returns a field of its receiver
 			if r := ThinReturn(Callee(&x.Call)); r != nil {
@@ -583,6 +583,59 @@ func FieldBase(v ssa.Value) string {
 // treated as fields of the owner. Filled by ResolveRoles.
 var nestedOwner = map[string]string{}
 
+// sharedGroup: such a grouping struct used by value inside SEVERAL structs of the repository (one `mailbox[T]` behind
+// both the Handler and the Actor): its fields count as fields of whichever owner a selection goes through.
+var sharedGroup = map[string]bool{}
+
+// ownerTypeName: the name of the struct the field selected by fa belongs to for the rules - for a field of a shared
+// grouping struct the owner the selection chain goes through.
+func ownerTypeName(x ssa.Value, base ssa.Value) string {
+	fieldIdx := -1
+	switch y := x.(type) {
+	case *ssa.FieldAddr:
+		fieldIdx = y.Field
+	case *ssa.Field:
+		fieldIdx = y.Field
+	}
+	raw := rawTypeName(base.Type())
+	_, single := nestedOwner[raw]
+	if single || sharedGroup[raw] {
+		// a field of a grouping struct reads as a field of the owner - unless the owner has a field of that very name
+		// of its own (an embedded component whose promoted field is shadowed): those are two different variables
+		if o := FieldOwner(x); o != base && fieldIdx >= 0 {
+			if shadowedIn(o.Type(), base.Type(), fieldIdx) {
+				return raw
+			}
+			if sharedGroup[raw] {
+				return typeName(o.Type())
+			}
+		}
+	}
+	return typeName(base.Type())
+}
+
+// shadowedIn: the struct owner has a direct field with the name of field i of the struct nested.
+func shadowedIn(owner, nested types.Type, i int) bool {
+	deref := func(t types.Type) *types.Struct {
+		if pt, ok := t.Underlying().(*types.Pointer); ok {
+			t = pt.Elem()
+		}
+		st, _ := t.Underlying().(*types.Struct)
+		return st
+	}
+	os, ns := deref(owner), deref(nested)
+	if os == nil || ns == nil || i >= ns.NumFields() {
+		return false
+	}
+	name := ns.Field(i).Name()
+	for k := 0; k < os.NumFields(); k++ {
+		if os.Field(k).Name() == name {
+			return true
+		}
+	}
+	return false
+}
+
 // transparentStruct: t is a struct type used by value that merely groups fields - anonymous, or a named type of the
 // repository without methods.
 func transparentStruct(t types.Type) bool {
@@ -638,7 +691,7 @@ func FieldOwner(v ssa.Value) ssa.Value {
 		case *ssa.FieldAddr:
 			if pt, ok := y.X.Type().Underlying().(*types.Pointer); ok {
 				if st, ok := pt.Elem().Underlying().(*types.Struct); ok && y.Field < st.NumFields() && transparentStruct(st.Field(y.Field).Type()) {
-					if _, mapped := nestedOwner[rawTypeName(st.Field(y.Field).Type())]; mapped {
+					if _, mapped := nestedOwner[rawTypeName(st.Field(y.Field).Type())]; mapped || sharedGroup[rawTypeName(st.Field(y.Field).Type())] {
 						b = y.X
 						continue
 					}
@@ -646,7 +699,7 @@ func FieldOwner(v ssa.Value) ssa.Value {
 			}
 		case *ssa.Field:
 			if st, ok := y.X.Type().Underlying().(*types.Struct); ok && y.Field < st.NumFields() && transparentStruct(st.Field(y.Field).Type()) {
-				if _, mapped := nestedOwner[rawTypeName(st.Field(y.Field).Type())]; mapped {
+				if _, mapped := nestedOwner[rawTypeName(st.Field(y.Field).Type())]; mapped || sharedGroup[rawTypeName(st.Field(y.Field).Type())] {
 					b = y.X
 					continue
 				}
@@ -908,6 +961,9 @@ type ChanOp struct {
 	Blocking bool
 	// Alt: the operation is a case of a select that has a case on some other channel (e.g. a timer)
 	Alt bool
+	// altParams (summaries only): the parameters that are the channels of the other cases of that select, -1 for a
+	// case on something else; a caller that passes nil for all of them has no alternative (a nil channel is never ready)
+	altParams []int
 }
 
 // chanParamOps summarises, for a function whose parameter i has channel type,
@@ -937,13 +993,19 @@ func chanParamOps(f *ssa.Function) map[int][]ChanOp {
 				out[i] = append(out[i], ChanOp{Kind: "send", Blocking: true})
 			}
 		case *ssa.Select:
-			for _, st := range x.States {
+			for si, st := range x.States {
 				if i := idx(st.Chan); i >= 0 {
 					k := "recv"
 					if st.Dir == types.SendOnly {
 						k = "send"
 					}
-					out[i] = append(out[i], ChanOp{Kind: k, Blocking: x.Blocking, Alt: len(x.States) > 1})
+					var others []int
+					for sj, st2 := range x.States {
+						if sj != si {
+							others = append(others, idx(st2.Chan))
+						}
+					}
+					out[i] = append(out[i], ChanOp{Kind: k, Blocking: x.Blocking, Alt: len(x.States) > 1, altParams: others})
 				}
 			}
 		case *ssa.UnOp:
@@ -974,6 +1036,65 @@ func ChanOps(p *Prog) []ChanOp {
 	for _, f := range p.Funcs {
 		if s := chanParamOps(f); len(s) > 0 {
 			summ[f] = s
+		}
+	}
+	// has the call an alternative for op o of its callee: not if every other case of the select waits on a parameter for
+	// which the call passes nil
+	altAt := func(o ChanOp, args []ssa.Value) bool {
+		if !o.Alt || len(o.altParams) == 0 {
+			return o.Alt
+		}
+		for _, pi := range o.altParams {
+			if pi < 0 || pi >= len(args) || !IsNilConst(Resolve(args[pi])) {
+				return true
+			}
+		}
+		return false
+	}
+	// a helper that hands its channel parameter on to another summarised helper does what that one does
+	for round := 0; round < 2; round++ {
+		for _, f := range p.Funcs {
+			Instrs(f, func(ins ssa.Instruction) {
+				ci, ok := ins.(ssa.CallInstruction)
+				if !ok {
+					return
+				}
+				c := ci.Common()
+				g := Callee(c)
+				if g == nil || g == f {
+					return
+				}
+				gs, okS := summ[g]
+				if !okS {
+					return
+				}
+				for gi, ops := range gs {
+					if gi >= len(c.Args) {
+						continue
+					}
+					a := Unwrap(c.Args[gi])
+					for fi, prm := range f.Params {
+						if a != ssa.Value(prm) {
+							continue
+						}
+						for _, o := range ops {
+							no := ChanOp{Kind: o.Kind, Blocking: o.Blocking, Alt: altAt(o, c.Args)}
+							dup := false
+							for _, e := range summ[f][fi] {
+								if e.Kind == no.Kind && e.Blocking == no.Blocking && e.Alt == no.Alt {
+									dup = true
+								}
+							}
+							if !dup {
+								if summ[f] == nil {
+									summ[f] = map[int][]ChanOp{}
+								}
+								summ[f][fi] = append(summ[f][fi], no)
+							}
+						}
+					}
+				}
+			})
 		}
 	}
 	alt := false
@@ -1010,7 +1131,7 @@ func ChanOps(p *Prog) []ChanOp {
 						for i, ops := range s {
 							if i < len(c.Args) {
 								for _, o := range ops {
-									alt = o.Alt
+									alt = altAt(o, c.Args)
 									mk(o.Kind, f, ins, c.Args[i], FuncName(g), o.Blocking)
 								}
 							}
